@@ -354,3 +354,12 @@ def c07_pool_work_counter_exact(ctx, v):
     obligation as C14 c14_delete_recomputes_work)."""
     from .obl_c14 import c14_delete_recomputes_work
     return c14_delete_recomputes_work(ctx, v)
+
+
+def c07_validator_work_gate(ctx, v):
+    """the validator's half of the routing-work agreement: Block::validate computes the requirement
+    from the PARENT's burn fee and timestamp and this block's timestamp — the very arguments the
+    producer's gate uses (c07_producer_work_gate) — and accepts only total_work >= it (same
+    obligation as C08 c08_block_work_gate)."""
+    from . import obl_c08
+    obl_c08.c08_block_work_gate(ctx, v)
